@@ -1334,6 +1334,8 @@ def replay_bls_total(args):
     sig = Sb.Sign(42, msg)
     T = _g2_torsion_point()
     sigs = [("empty", b""), ("95", sig[:95]), ("97", sig + b"\x00"), ("leading zero", b"\x00" + sig), ("48", sig[:48]),
+            ("zero byte between the halves", sig[:48] + b"\x00" + sig[48:]), ("8 zero bytes between the halves", sig[:48] + b"\x00" * 8 + sig[48:]),
+            ("zero byte inside the first half", sig[:1] + b"\x00" + sig[1:]),
             ("torsion point", G2_to_signature(T)), ("zeros", b"\x00" * 96), ("flag in second word", sig[:48] + bytes([sig[48] | 0x80]) + sig[49:])]
     for sname in ("G2Basic", "G2MessageAugmentation", "G2ProofOfPossession"):
         S = getattr(bls, sname)
@@ -1356,6 +1358,25 @@ def replay_bls_total(args):
             if sname == "G2ProofOfPossession":
                 calls.append(("FastAggregateVerify no keys, sig " + nm, lambda s_=s_: S.FastAggregateVerify([], msg, s_)))
         if sname == "G2ProofOfPossession":
+            # two keys outside the subgroup whose cofactor components cancel: a*G + T and b*G - T (the aggregate IS a valid key)
+            from py_ecc.bls.g2_primitives import G1_to_pubkey as _enc1
+            from py_ecc.optimized_bls12_381 import G1 as _G1, FQ as _FQ, add as _add, neg as _neg, multiply as _mul, curve_order as _ro, is_inf as _isinf
+            Tt = None
+            xx = 1
+            while Tt is None and xx < 200:
+                t_ = (xx ** 3 + 4) % _Q381
+                yy = pow(t_, (_Q381 + 1) // 4, _Q381)
+                if yy * yy % _Q381 == t_:
+                    cand = _mul((_FQ(xx), _FQ(yy), _FQ(1)), _ro)        # r * P: the cofactor-torsion component of P
+                    if not _isinf(cand):
+                        Tt = cand
+                xx += 1
+            if Tt is not None:
+                ka, kb = 21, 34
+                pk_a, pk_b = _enc1(_add(_mul(_G1, ka), Tt)), _enc1(_add(_mul(_G1, kb), _neg(Tt)))
+                s_ab = S.Sign(ka + kb, msg)
+                calls.append(("FastAggregateVerify two keys with cancelling cofactor components", lambda: S.FastAggregateVerify([pk_a, pk_b], msg, s_ab)))
+                calls.append(("FastAggregateVerify cancelling components plus an honest key", lambda: S.FastAggregateVerify([pk_a, pk, pk_b], msg, S.Aggregate([s_ab, good_sig]))))
             for nm, k in keys[:14]:
                 calls.append(("PopVerify key " + nm, lambda k=k: S.PopVerify(k, good_sig)))
                 calls.append(("FastAggregateVerify key " + nm, lambda k=k: S.FastAggregateVerify([pk, k], msg, good_sig)))
@@ -1531,9 +1552,9 @@ def replay_c11_bytes_decode(args):
     return (len(bad) > 0), "c11_bytes_decode %s: %d mismatches %s" % (which, len(bad), str(bad[:3])[:300])
 
 
-def rfc_hkdf(salt, ikm, info, L):
+def rfc_hkdf(salt, ikm, info, L, prk=None):
     import hmac, hashlib
-    prk = hmac.new(salt, ikm, hashlib.sha256).digest()
+    prk = hmac.new(salt, ikm, hashlib.sha256).digest() if prk is None else prk
     t, okm = b"", b""
     i = 1
     while len(okm) < L:
@@ -1554,6 +1575,16 @@ def replay_c16_hkdf(args):
         cases.insert(0, (bytes((7 * i + 1) % 256 for i in range(int(args["salt_len"]))), bytes((3 * i + 2) % 256 for i in range(int(args.get("ikm_len", 3)))), b"info"))
     for n in (63, 64, 65, 128):
         cases.append((bytes(range(n)), b"ikm" * (n // 8), b"x" * (n - 60)))
+    # bytearray arguments: same output, arguments untouched
+    for info_len in (0, 5, 33, 64):
+        for L in (1, 32, 33, 70, 100):
+            prk_b, info_b = bytearray(b"\x0b" * 32), bytearray(range(info_len))
+            try:
+                got = bytes(hkdf_expand(prk_b, info_b, L))
+            except Exception as e:
+                got = repr(e)
+            if got != rfc_hkdf(b"", b"", bytes(range(info_len)), L, prk=bytes(b"\x0b" * 32))[1] or bytes(info_b) != bytes(range(info_len)) or bytes(prk_b) != b"\x0b" * 32:
+                bad.append(("expand with bytearray arguments", info_len, L))
     for salt, ikm, info in cases:
         prk, _ = rfc_hkdf(salt, ikm, info, 0)
         if bytes(hkdf_extract(salt, ikm)) != prk:
@@ -2056,6 +2087,14 @@ def replay_c17_clear(args):
             bad.append(("G2 clearing of a subgroup point is not h_eff * P", k))
     if not is_inf(multiply_clear_cofactor_G1(Z1)) or not is_inf(multiply_clear_cofactor_G2(Z2)):
         bad.append(("clearing the identity",))
+    # the published cofactor constants against the values derived from the curve parameter and from point counting
+    from py_ecc.bls import constants as bc
+    xp = -0xd201000000010000
+    h2 = (xp ** 8 - 4 * xp ** 7 + 5 * xp ** 6 - 4 * xp ** 4 + 6 * xp ** 3 - 4 * xp ** 2 - 4 * xp + 13) // 9
+    if getattr(bc, "G2_COFACTOR", None) != h2:
+        bad.append(("G2_COFACTOR differs from (x^8 - 4x^7 + 5x^6 - 4x^4 + 6x^3 - 4x^2 - 4x + 13)/9",))
+    if HE2 != h2 * (3 * xp * xp - 3) or cst.H_EFF_G1 != 1 - xp:
+        bad.append(("effective cofactors differ from h2 (3x^2 - 3) / 1 - x",))
     return (len(bad) > 0), "c17_clear: %d failures %s" % (len(bad), bad[:3])
 
 
@@ -2118,7 +2157,123 @@ def replay_c10_map(args):
                 bad.append(("iso image off curve", t if t < 10 ** 6 else "big"))
         except Exception as e:
             bad.append((repr(e)[:50], t if t < 10 ** 6 else "big"))
+    # field elements u whose SWU image lies in the rational kernel of the 11-isogeny: map_to_curve_G1(u) is the point at infinity
+    try:
+        from py_ecc.bls.hash_to_curve import map_to_curve_G1
+        Zc = 11
+        k = (-_G1B) * pow(_G1A, -1, p) % p
+        sq = lambda a: pow(a, (p + 1) // 4, p) if pow(a % p, (p - 1) // 2, p) in (0, 1) else None
+        us = []
+        for xr, yr in _iso11_kernel_points():
+            ws = []
+            c1 = (xr * pow(k, -1, p) - 1) % p            # tv1 for x1 = x'
+            if c1:
+                disc = sq((1 + 4 * pow(c1, -1, p)) % p)
+                if disc is not None:
+                    ws += [(-1 + disc) * pow(2, -1, p) % p, (-1 - disc) * pow(2, -1, p) % p]
+            disc = sq(((k - xr) ** 2 - 4 * k * (k - xr)) % p)   # k w^2 + (k - x') w + (k - x') = 0 for x2 = x'
+            if disc is not None:
+                ws += [(-(k - xr) + disc) * pow(2 * k, -1, p) % p, (-(k - xr) - disc) * pow(2 * k, -1, p) % p]
+            for w_ in ws:
+                u2 = w_ * pow(Zc, -1, p) % p
+                u = sq(u2)
+                if u is not None and u * u % p == u2:
+                    for uu in (u, p - u):
+                        if rfc_sswu_g1(uu)[0] == xr and uu not in us:
+                            us.append(uu)
+        for uu in us[:8]:
+            P = map_to_curve_G1(FQ(uu))
+            if int(P[2]) != 0:
+                bad.append(("map_to_curve_G1(u) for u over the isogeny kernel is not the point at infinity", "on curve" if is_on_curve(P, b) else "OFF the curve"))
+    except ImportError:
+        pass
     return (len(bad) > 0), "c10_map: %d mismatches %s" % (len(bad), str(bad[:3])[:200])
+
+
+def _iso11_kernel_points():
+    """affine points (x, y) of the 11-isogenous curve E' whose abscissa is a root of the isogeny's x-denominator (rational kernel)."""
+    p = _Q381
+    rng = random.Random(5)
+    from py_ecc.optimized_bls12_381.constants import ISO_11_MAP_COEFFICIENTS as K11
+    xden = [int(c) % p for c in K11[1]]
+
+    def pmod(a, f):
+        a = list(a)
+        df = len(f) - 1
+        inv_lead = pow(f[-1], -1, p)
+        while len(a) - 1 >= df and any(a):
+            if a[-1]:
+                q_ = a[-1] * inv_lead % p
+                sh = len(a) - 1 - df
+                for i, fi in enumerate(f):
+                    a[sh + i] = (a[sh + i] - q_ * fi) % p
+            a.pop()
+        while len(a) > 1 and a[-1] == 0:
+            a.pop()
+        return a or [0]
+
+    def pmulmod(a, b_, f):
+        res = [0] * (len(a) + len(b_) - 1)
+        for i, ai in enumerate(a):
+            if ai:
+                for j, bj in enumerate(b_):
+                    res[i + j] = (res[i + j] + ai * bj) % p
+        return pmod(res, f)
+
+    def ppow(base, e, f):
+        acc = [1]
+        while e:
+            if e & 1:
+                acc = pmulmod(acc, base, f)
+            base = pmulmod(base, base, f)
+            e >>= 1
+        return acc
+
+    def pgcd(a, b_):
+        while any(b_):
+            a, b_ = b_, pmod(a, b_)
+        return a
+
+    def trim(h):
+        h = list(h)
+        while len(h) > 1 and h[-1] == 0:
+            h.pop()
+        return h
+    f = trim(xden)
+    t = ppow([0, 1], p, f)
+    t = list(t) + [0] * max(0, 2 - len(t))
+    t[1] = (t[1] - 1) % p
+    g = trim(pgcd(f, t))
+    roots, stack, tries = [], [g], 0
+    while stack and tries < 300:
+        h = trim(stack.pop())
+        if len(h) <= 1:
+            continue
+        if len(h) == 2:
+            roots.append((-h[0]) * pow(h[1], -1, p) % p)
+            continue
+        tries += 1
+        c = rng.randrange(p)
+        a = list(ppow(pmod([c, 1], h), (p - 1) // 2, h))
+        a[0] = (a[0] - 1) % p
+        d = trim(pgcd(h, a))
+        if 1 < len(d) < len(h):
+            qt, rem = [0] * (len(h) - len(d) + 1), list(h)
+            invd = pow(d[-1], -1, p)
+            for i in range(len(h) - len(d), -1, -1):
+                qt[i] = rem[i + len(d) - 1] * invd % p
+                for j, dj in enumerate(d):
+                    rem[i + j] = (rem[i + j] - qt[i] * dj) % p
+            stack += [d, qt]
+        else:
+            stack.append(h)
+    out = []
+    for xr in roots:
+        gx = (xr ** 3 + _G1A * xr + _G1B) % p
+        yr = pow(gx, (p + 1) // 4, p)
+        if yr * yr % p == gx:
+            out.append((xr, yr))
+    return out
 
 
 def replay_c10_iso(args):
@@ -2141,6 +2296,15 @@ def replay_c10_iso(args):
         Q2 = iso_map_G2(N * l2, Y * l2, D * l2)
         if not is_on_curve(Q1, b2) or normalize(Q1) != normalize(Q2):
             bad.append(("G2",))
+    # the rational kernel of the 11-isogeny: the projective map sends it to the point at infinity (z = 0); anything else
+    # (e.g. an affine triple built with inv0) is off the curve
+    for xr, yr in _iso11_kernel_points():
+        for lam in (1, 5):
+            P = iso_map_G1(FQ(xr * lam), FQ(yr * lam), FQ(lam))
+            if int(P[2]) != 0 and not is_on_curve(P, b):
+                bad.append(("G1 kernel point maps off the curve", xr % 1000))
+            elif int(P[2]) != 0:
+                bad.append(("G1 kernel point does not map to infinity", xr % 1000))
     return (len(bad) > 0), "c10_iso: %d failures %s" % (len(bad), bad[:3])
 
 
@@ -2603,3 +2767,31 @@ def replay_c07_small_opt(args):
     except Exception as e:
         bad.append((repr(e)[:60],))
     return (len(bad) > 0), "c07_small_opt GF(%d): %d failures %s" % (p, len(bad), str(bad[:3])[:200])
+
+
+def replay_c18_cases(args):
+    """secp256k1.add on real curve points whose abscissae differ by the model's difference (and by N, P - N, 1), against the affine law."""
+    from py_ecc.secp256k1 import secp256k1 as sp
+    bad = []
+    diffs = [_SN, _SP - _SN, 1, 2]
+    try:
+        diffs.insert(0, abs(int(args["x2"]) - int(args["x1"])))
+    except Exception:
+        pass
+    for d in diffs:
+        if d <= 0 or d >= _SP:
+            continue
+        found = 0
+        for k in range(1, 400):
+            A_, B_ = _sec_lift(k, 0), _sec_lift((k + d) % _SP, 0)
+            if A_ and B_:
+                for X, Y in ((A_, B_), (B_, A_), (A_, (B_[0], _SP - B_[1]))):
+                    exp = aff_add(X, Y, _SP)
+                    exp = (0, 0) if exp is None else exp
+                    got = tuple(int(c) for c in sp.add(X, Y))
+                    if got != exp:
+                        bad.append((k, "d=%s..." % str(d)[:12], got[0] % 1000))
+                found += 1
+                if found >= 3:
+                    break
+    return (len(bad) > 0), "c18_cases: %d mismatches %s" % (len(bad), str(bad[:3])[:200])
